@@ -1,6 +1,7 @@
 (* C05 commands (codes 5000 + sub): decoding of trees / formatters and encoding of results. *)
 From Coq Require Import List ZArith NArith Bool.
 From BS Require Import Base.Sexp Base.Types Model.Render Model.Reparse Model.SmartQuotes Model.Build Spec.BuildSpec Spec.RoundTrip.
+From BS Require Import Gen.Tables Gen.T_C05.
 From BS Require Model.EntitySubst.
 Import ListNotations.
 Open Scope Z_scope.
@@ -71,6 +72,10 @@ Definition s_snode (n : snode) : sexp :=
 Definition reread (check : bool) (enc : bool) (f : fmt) (t : node) : list Build.event :=
   read_tokens read_text EntitySubst.unescape (html_rcfg check) (tokens_of enc f t).
 
+Definition rcfg_v (void : list str) (check : bool) : rcfg := mkrcfg void htmlparser_cdata_content_elements check.
+Definition bcfg_v (void : list str) : bconfig :=
+  mkcfg (Some void) default_preserve_whitespace_tags default_string_containers ascii_spaces root_tag_name.
+
 Definition disp_c05 (sub : Z) (args : list sexp) : sexp :=
   match sub, args with
   | 0, f :: enc :: lv :: t :: _ => sstr (decode (gbool enc) (g_fmt f) (g_level lv) (g_tree t))
@@ -93,5 +98,16 @@ Definition disp_c05 (sub : Z) (args : list sexp) : sexp :=
   | 11, f :: enc :: chk :: t :: _ =>
       sbool (representable_top (g_fmt f) (html_rcfg (gbool chk)) html_bcfg
                (doc html_bcfg (norm (gbool enc) (g_fmt f) html_bcfg (g_tree t))))
+  (* the same for a builder with its own empty-element tags (empty_element_tags=...): reader events, promised tree,
+     tree built from the events *)
+  | 12, v :: f :: enc :: chk :: t :: _ =>
+      slist s_bevent (read_tokens read_text EntitySubst.unescape (rcfg_v (glist gstr v) (gbool chk))
+                        (tokens_of (gbool enc) (g_fmt f) (g_tree t)))
+  | 13, v :: f :: enc :: t :: _ =>
+      let cfg := bcfg_v (glist gstr v) in slist s_snode (flat_tree cfg (norm (gbool enc) (g_fmt f) cfg (g_tree t)))
+  | 14, v :: f :: enc :: chk :: t :: _ =>
+      let cfg := bcfg_v (glist gstr v) in
+      slist s_snode (spec_run cfg (read_tokens read_text EntitySubst.unescape (rcfg_v (glist gstr v) (gbool chk))
+                                     (tokens_of (gbool enc) (g_fmt f) (g_tree t))))
   | _, _ => A (-1)
   end.
